@@ -242,6 +242,14 @@ theorem stepWorld_okT {s : Sim} (hI : SInvT s) (op : Op) :
     · exact ⟨⟨hW, hK⟩, TPast.refl _⟩
     · have := tframe (w := s.cur) (w' := updExp s.cur k' (fun e => { e with maxT := some n, rv := e.rv + 1 })) hW (by rfl)
       exact ⟨⟨this.1, hK⟩, this.2⟩
+  | jobGone k' =>
+    simp only [stepWorld]
+    split
+    · exact ⟨⟨hW, hK⟩, TPast.refl _⟩
+    · split
+      · have := tframe (w := s.cur) (w' := { s.cur with jobs := s.cur.jobs.filter (fun j => ¬ j.key = k') }) hW (by rfl)
+        exact ⟨⟨this.1, hK⟩, this.2⟩
+      · exact ⟨⟨hW, hK⟩, TPast.refl _⟩
   | noop => exact ⟨⟨hW, hK⟩, TPast.refl _⟩
 
 theorem step_invT {s : Sim} (hI : SInvT s) (op : Op) : SInvT (step s op).1 := by
